@@ -952,7 +952,7 @@ def e2e(rep, info, exe, d, tier, seed, stats, extra_types=()):
                 distinct=len(set(json.dumps([s.params, s.ret]) for s in sigs)), samples=samples)
 
 def failure_paths(rep, never, d, lib, fails, progs):
-    st = dict(fail_nil_cases=len(fails), fail_nil_ffi_fail=0, fail_nil_known=0, fail_bad=0, fail_extra=0)
+    st = dict(fail_nil_cases=len(fails), fail_nil_ffi_fail=0, fail_bad=0, fail_extra=0)
     mex = model_exec(fails)
     with ThreadPoolExecutor(max_workers=8) as ex:
         runs = list(ex.map(lambda s: run_never(never, progs[s.sid]), fails))
@@ -963,18 +963,17 @@ def failure_paths(rep, never, d, lib, fails, progs):
         model_fail = m.startswith("exec ffi_fail values")
         if s_ok:
             st["fail_nil_ffi_fail"] += 1
-            if not model_fail:           # I satisfies S where the model (mirror of the pinned code) does not: the defect was repaired
-                st["fail_nil_repaired"] = st.get("fail_nil_repaired", 0) + 1
+            if not model_fail:           # the model (mirror of the code) lets a nil operand through although I does not
+                st["fail_bad"] += 1
+                rep.violation("fail_model_%d" % s.sid, json.dumps(dict(sig_record(s), what="correspondence broken: M-FFI does not raise ffi_fail for a nil operand, the implementation does",
+                              model=m)), False)
             continue
-        # the property is violated on I: a nil operand and no ffi_fail
-        if not model_fail:
-            # the model predicts it: prep_vals was reset by a later record operand
-            st["fail_nil_known"] += 1
-            rep.finding("nil-arg-before-record-arg", "model: %s\nI: rc=%d called=%s stdout=%r stderr tail=%r\n%s" % (m, rc, called, out[-200:], err[-300:], never_program(s, "LIB")))
-        else:
-            st["fail_bad"] += 1
-            rep.violation("fail_nil_%d" % s.sid, json.dumps(dict(sig_record(s), what="nil string / nil record operand did not raise ffi_fail before the call",
-                          observed="rc=%d stdout=%s stderr=%s" % (rc, out[-400:], err[-600:]), model=m)), True)
+        # the property is violated on I: a nil operand and no ffi_fail before the call.  (Up to commit 7f404f9 the
+        # shape "nil operand, then a non-nil record operand" was the known finding nil-arg-before-record-arg; it is
+        # repaired, theorem ffi_failure_paths is now full strength, so its return is a violation like any other.)
+        st["fail_bad"] += 1
+        rep.violation("fail_nil_%d" % s.sid, json.dumps(dict(sig_record(s), what="nil string / nil record operand did not raise ffi_fail before the call",
+                      observed="rc=%d called=%s stdout=%s stderr=%s" % (rc, called, out[-400:], err[-600:]), model=m)), True)
     # missing library / missing symbol / NULL string result
     r = Rng(12345)
     extra = []
